@@ -713,17 +713,65 @@ def public_case(case, upto=None):
             'merge': case['merge'], 'ast': case['ast']}
 
 
-def limited_driver(run: Run, lines):
-    """the driver under a 12 GB address-space cap (a runaway evaluation must become a harness fault,
-    not take the shared machine down)"""
-    import resource
-    soft, hard = resource.getrlimit(resource.RLIMIT_AS)
-    cap = 12 * 1024 ** 3
-    try:
-        resource.setrlimit(resource.RLIMIT_AS, (cap if hard == resource.RLIM_INFINITY else min(cap, hard), hard))
-        return run.driver('C05', lines)
-    finally:
-        resource.setrlimit(resource.RLIMIT_AS, (soft, hard))
+def _group_rss_mb(pgid: int) -> int:
+    """resident memory of all processes of one process group (reads /proc)"""
+    import os
+    total = 0
+    for d in os.listdir('/proc'):
+        if not d.isdigit():
+            continue
+        try:
+            if os.getpgid(int(d)) != pgid:
+                continue
+            with open(f'/proc/{d}/statm') as f:
+                total += int(f.read().split()[1]) * 4096 // (1 << 20)
+        except (OSError, ValueError, IndexError):
+            continue
+    return total
+
+
+def limited_driver(run: Run, lines, cap_mb: int = 8000, timeout: int = 900):
+    """the C05 driver with a memory watchdog: a runaway evaluation must become a harness fault (exit 2), not
+    take the shared machine down.  Same contract as harness.common.run_driver."""
+    import os
+    import signal
+    import subprocess
+    import tempfile
+    import time
+    from harness.common import LEAN
+    if getattr(run, 'driver_override', None) is not None:
+        return run.driver_override(lines)
+    if not lines:
+        return []
+    with tempfile.TemporaryFile('w+') as fin, tempfile.TemporaryFile('w+') as fout, tempfile.TemporaryFile('w+') as ferr:
+        fin.write('\n'.join(lines) + '\n')
+        fin.seek(0)
+        p = subprocess.Popen(['lake', 'env', 'lean', '--run', 'Drivers/C05.lean'], cwd=LEAN, stdin=fin, stdout=fout,
+                             stderr=ferr, text=True, start_new_session=True)
+        t0 = time.time()
+        killed = ''
+        while p.poll() is None:
+            time.sleep(0.25)
+            if _group_rss_mb(p.pid) > cap_mb:
+                killed = f'memory above {cap_mb} MB'
+            elif time.time() - t0 > timeout:
+                killed = f'timeout {timeout}s'
+            if killed:
+                try:
+                    os.killpg(p.pid, signal.SIGKILL)
+                except OSError:
+                    pass
+                p.wait()
+                break
+        fout.seek(0)
+        ferr.seek(0)
+        out = fout.read().split('\n')
+        err = ferr.read()
+    if out and out[-1] == '':
+        out.pop()
+    if killed or p.returncode != 0 or len(out) != len(lines):
+        raise DriverError(f'driver C05: {killed} rc={p.returncode}, {len(out)} answers for {len(lines)} lines\n{err[-2000:]}')
+    return out
 
 
 def compare(run: Run, cases: list, stats=True) -> None:
@@ -839,6 +887,78 @@ def correspond(run: Run) -> None:
                       'distinct = distinct (program, history length) with more than 3 AST nodes')
     for i in range(0, len(cases), 500):
         compare(run, cases[i:i + 500])
+
+
+# ------------------------------------------------- token-level caches (observed only)
+CACHE_EXPRS = [
+    "map{'k': $v}('k')", "let $m := map{'k': $v, 'c': count(//b)} return ($m('k'), $m('c'))", "map:keys(map{$v: 1})",
+    "map:size(map{$v: 1, 2: 2})", "[ $v, count(//b) ](1)", "array:size([ $v, count(//b) ])", "array{ $v, count(//b) }(2)",
+    "for $k in (1,2) return map{'k': $k + $v}('k')", "(for $k in (1,2) return map{'k': $k + $v}) ! .('k')",
+    "let $f := function($a,$b){$a+$b} return $f($v, ?)(1)",
+    "let $f := function($a,$b){$a+$b}, $g := $f($v, ?) return ($g(1), $g(2))", "concat(?, 'x')($v)",
+    "let $g := concat(?, 'x') return ($g($v), $g('y'))", "for-each((1,2), function($a){$a + $v})",
+    "fold-left((1,2), $v, function($a,$b){$a+$b})", "(1,2)[. = $v]", "//b[. = $v]/text()", "count(//b[position() = $v])",
+    "string-join((for $i in 1 to $v return 'x'), '')", "map:merge((map{1:$v}, map{2:count(//b)}))(2)",
+    "map:put(map{1:$v}, 2, 5)(1)", "sort((3,1,$v))", "$v ! (. + 1)", "let $x := $v return function(){$x}()",
+    "count(/*/*) + $v", "(//b)[$v]/name()", "some $x in //b satisfies count($x/preceding-sibling::*) = $v",
+]
+
+
+def canon_any(res) -> str:
+    if not isinstance(res, list):
+        res = [res]
+    out = []
+    for x in res:
+        if hasattr(x, 'tag'):
+            out.append(f'<{x.tag}>')
+        else:
+            out.append(f'{type(x).__name__}:{x!r}'[:50])
+    return ','.join(out) or '()'
+
+
+def cache_histories(run: Run) -> None:
+    """expressions outside the model (maps, arrays, partial application, HOFs, predicates): one Selector evaluated
+    over permuted histories of (document, $v) must agree, step by step, with a fresh select()."""
+    import elementpath
+    from elementpath import Selector
+    from elementpath.xpath31 import XPath31Parser
+    rng = run.rng
+    for expr in CACHE_EXPRS:
+        for _ in range(run.scale(4, 30)):
+            try:
+                sel = Selector(expr, parser=XPath31Parser)
+            except Exception as e:  # noqa
+                run.disagree(Disagreement({'xpath': expr}, canon_error(e), 'parsed', what='cache-expression-rejected'))
+                break
+            steps = [(rng.randrange(len(DOCS)), rng.randrange(1, 4)) for _ in range(rng.randrange(3, 9))]
+            docs = {}
+            for k, (d, v) in enumerate(steps):
+                if d not in docs:
+                    docs[d] = make_doc(d)
+                root, tostr = docs[d]
+                before = tostr()
+                vs = {'v': v}
+
+                def g(f):
+                    try:
+                        return canon_any(f())
+                    except Exception as e:  # noqa
+                        return canon_error(e)
+                got = g(lambda: sel.select(root, variables=vs))
+                it = g(lambda: list(sel.iter_select(root, variables=vs)))
+                fresh = g(lambda: elementpath.select(make_doc(d)[0], expr, parser=XPath31Parser, variables={'v': v}))
+                run.stats.count('cache-history-steps')
+                case = {'xpath': expr, 'steps': [{'doc': DOCS[a][1], 'v': b} for a, b in steps[:k + 1]]}
+                if got != fresh:
+                    run.disagree(Disagreement(case, got, None, spec=fresh, what='reused-selector-vs-fresh', site='token-level state'))
+                    break
+                if it != got:
+                    run.disagree(Disagreement(case, 'iter_select:' + it, None, spec='iter_select:' + got,
+                                              what='select-vs-iter_select', site='Selector.iter_select'))
+                    break
+                if tostr() != before or vs != {'v': v}:
+                    run.disagree(Disagreement(case, 'modified', None, spec='unchanged', what='caller-state-modified'))
+                    break
 
 
 # --------------------------------------------------------------------------- search
@@ -1054,12 +1174,12 @@ def shrink(d: Disagreement) -> Disagreement:
         ok = []
         try:
             lines = [line_of(c) for c in cands]
-            answers = sub.driver('C05', lines)
+            answers = limited_driver(sub, lines)
         except Exception:  # noqa
             return None
         for c, ans in zip(cands, answers):
             one = Run(PROP, 'quick', 0)
-            one.driver = lambda name, ls, _a=ans: [_a]
+            one.driver_override = lambda ls, _a=ans: [_a]
             try:
                 compare(one, [c], stats=False)
             except Exception:  # noqa
@@ -1136,6 +1256,7 @@ def body(run: Run) -> int:
     run.prove(['EPV.Props.C05'], ['EPV.Spec.LexicalSem'])
     try:
         correspond(run)
+        cache_histories(run)
     except DriverError as e:
         run.broken.append('driver:C05 ' + str(e)[:300])
     return run.finish('proof', shrink=shrink, search=search)
